@@ -35,6 +35,7 @@ def run(prog, chk):
                     "with the comment sign - a user's comment that merely mentions the marker text is left alone (R17.11)"]
     chk.decided += ["when a generated mark class collides with a class of that name the user already wrote (same glyph, other anchor), every later mark of that anchor goes to the renamed class too: "
                     "the class name handed to _defineMarkClass follows the class the previous definition landed in, so the user's class is never extended (R17.12)"]
+    chk.decided += ["feature-writer objects keep no per-font state outside self.context (no memoising decorators, no attributes written outside __init__): a writer object reused for a second feature file must not remember the first one's blocks (R17.13 = R08.7)"]
     chk.not_decided += ["index arithmetic of marker placement", "GSUB byte identity", "feaLib's asFea() round trip"]
     chk.decided += ["a generated feature is inserted as its own top-level block; a user's block only ever loses statements in _insert (R17.9, shared with C20)"]
     chk.decided += ["what the user's GDEF table defines (glyph classes; ligature carets by position or by index - classes read from fontTools) is not generated again (R17.10)"]
@@ -50,6 +51,8 @@ def run(prog, chk):
     chk.guard(r1710, prog, chk)
     chk.guard(r1711, prog, chk)
     chk.guard(r1712, prog, chk)
+    from .c08 import r087
+    chk.guard(r087, prog, chk, "R17.13")
 
 
 # ----------------------------------------------------------------------------- R17.1
